@@ -96,6 +96,14 @@ fn gen_batch(max: usize, next_seq: &mut u32, mentioned: &BTreeSet<u32>) -> (Vec<
       .collect();
     return (v, "huge-sparse");
   }
+  if ctx::chance(1, 400) {
+    // one index in EVERY block of 65 536 (all 65 536 containers of the 32-bit index space present), sometimes all but
+    // the last block, which the next batch may then fill
+    ctx::stat("probe.index_in_every_block");
+    let off = ctx::choose(16) as u32;
+    let blocks: u32 = if ctx::choose(3) == 0 { 65_535 } else { 65_536 };
+    return ((0..blocks).map(|k| (k << 16) | off).collect(), "every-block");
+  }
   if ctx::choose(14) == 0 {
     // a long consecutive run: a dense set whose serialised form is large but compresses extremely well
     ctx::stat("probe.dense_run");
@@ -325,10 +333,10 @@ pub fn run(params: &Params) {
           sid.rsplit('#').next().unwrap().to_owned()
         };
         let r = match (&mut issuer.doc, unrevoke) {
-          (AnyDoc::Core(d), true) => d.unrevoke_credentials(query.as_str(), &batch).map_err(|e| e.to_string()),
-          (AnyDoc::Core(d), false) => d.revoke_credentials(query.as_str(), &batch).map_err(|e| e.to_string()),
-          (AnyDoc::Iota(d), true) => d.unrevoke_credentials(query.as_str(), &batch).map_err(|e| e.to_string()),
-          (AnyDoc::Iota(d), false) => d.revoke_credentials(query.as_str(), &batch).map_err(|e| e.to_string()),
+          (AnyDoc::Core(d), true) => d.unrevoke_credentials(query.as_str(), &batch).map_err(|e| err_chain(&e)),
+          (AnyDoc::Core(d), false) => d.revoke_credentials(query.as_str(), &batch).map_err(|e| err_chain(&e)),
+          (AnyDoc::Iota(d), true) => d.unrevoke_credentials(query.as_str(), &batch).map_err(|e| err_chain(&e)),
+          (AnyDoc::Iota(d), false) => d.revoke_credentials(query.as_str(), &batch).map_err(|e| err_chain(&e)),
         };
         after_update(&issuer_core(&issuer.doc), &sid, unrevoke, &batch, kind, r, &mut model, &mut mentioned, step);
         if unrevoke {
@@ -571,10 +579,45 @@ fn with_endpoint(core: &CoreDocument, sid: &str, endpoint_b64url: &str) -> Optio
 /// The same bitmap as another implementation of RevocationBitmap2022 may have written it: compressed at another zlib
 /// level, or serialised (standard Roaring format) with a RUN container. It must decode to the same set, and an update
 /// through the document must change exactly the requested indices.
+/// An error with its chain of sources (the outermost text alone says "credential revocation error").
+fn err_chain(e: &dyn std::error::Error) -> String {
+  let mut s = e.to_string();
+  let mut cur = e.source();
+  while let Some(c) = cur {
+    s.push_str(": ");
+    s.push_str(&c.to_string());
+    cur = c.source();
+  }
+  s
+}
+
 fn foreign_encoder_scenario(core: &CoreDocument, sid: &str, model: &BTreeSet<u32>) {
   let ep = endpoint_of(core, sid);
   let Some(raw) = super::b64url_decode(&ep).and_then(|z| unzlib(&z)) else { return };
-  match ctx::choose(2) {
+  match ctx::choose(3) {
+    2 => {
+      // the same compressed bytes in another spelling of base64: the alphabet the `;base64` label of a data URL denotes
+      // (`+` `/`), with or without padding, or the URL-safe alphabet with padding (the default of many encoders)
+      let mut other = match ctx::choose(3) {
+        0 => ep.replace('-', "+").replace('_', "/"),
+        1 => ep.replace('-', "+").replace('_', "/"),
+        _ => ep.clone(),
+      };
+      if ctx::choose(2) == 0 || other == ep {
+        while other.len() % 4 != 0 {
+          other.push('=');
+        }
+      }
+      if other == ep {
+        return;
+      }
+      ctx::stat("probe.endpoint_in_another_base64_spelling");
+      ctx::sched("b64spelling", other.len() as u64);
+      let Some(doc) = with_endpoint(core, sid, &other) else { return };
+      let got = ctx::catch(|| doc.resolve_revocation_bitmap(sid.into()).map_err(|e| e.to_string())).unwrap_or_else(|p| Err(format!("panic: {p}")));
+      let qs: Vec<u32> = model.iter().copied().take(16).chain([0u32, 1, 65_536, u32::MAX]).collect();
+      check_bitmap("other-base64-spelling", got, model, &qs, &other);
+    }
     0 => {
       let level = [0u32, 1, 9][ctx::choose(3)];
       ctx::stat("probe.endpoint_compressed_at_another_level");
@@ -849,7 +892,10 @@ fn after_update(
         "C06",
         "C06.endpoint_round_trip",
         format!("{op}/update-of-own-service-fails"),
-        format!("{op}_credentials on the issuer's own service failed: {e}"),
+        format!(
+          "{op}_credentials on the issuer's own service {sid} failed: {e} (services of the document: {:?})",
+          core.service().iter().map(|s| s.id().to_string()).collect::<Vec<_>>()
+        ),
       );
     }
   }
